@@ -70,6 +70,174 @@ def _tuple_field_of(f, l, depth=0):
     return None
 
 
+def _closures_in(crate, f):
+    """closure id -> (host fn, upvar operands) for the closures constructed in f and, recursively, in those closures"""
+    out = {}
+    work = [f]
+    while work:
+        h = work.pop()
+        for bb, si, pl, rv, sp in h.assigns():
+            if rv[0] == "agg" and rv[1][0] in ("closure", "coroutine", "coroutine_closure") and rv[1][1] not in out:
+                cf = crate.fns.get(rv[1][1])
+                if cf is not None:
+                    out[rv[1][1]] = (h, rv[2])
+                    work.append(cf)
+    return out
+
+
+def _through(fn, l, depth=0):
+    """root local of l through plain copies, references and derefs (no field projections)"""
+    if depth > 10:
+        return l
+    ds = fn.whole_defs(l)
+    if len(ds) == 1 and ds[0][0] == "assign":
+        rv = ds[0][3]
+        p = op_place(rv[1]) if rv[0] == "use" else rv[2] if rv[0] == "ref" else None
+        if p is not None and all(x == "*" for x in place_projs(p)):
+            return _through(fn, place_local(p), depth + 1)
+    return l
+
+
+def _upvar_index(cf, l, depth=0):
+    """index of the closure capture that local l of closure cf is a copy / deref / reborrow of"""
+    if depth > 10:
+        return None
+    for d in cf.whole_defs(l):
+        if d[0] != "assign":
+            continue
+        rv = d[3]
+        p = op_place(rv[1]) if rv[0] == "use" else rv[2] if rv[0] == "ref" else None
+        if p is None:
+            continue
+        if place_local(p) == 1:
+            fs = [e for e in place_projs(p) if isinstance(e, list) and e[0] == "f"]
+            if fs and str(fs[0][3]).startswith("closure:") and len(fs) == 1:
+                return fs[0][1]
+        elif all(x == "*" for x in place_projs(p)):
+            r = _upvar_index(cf, place_local(p), depth + 1)
+            if r is not None:
+                return r
+    return None
+
+
+def _local_in_root(closures, f, host, l, depth=0):
+    """the local of f that local l of `host` (f itself or a closure constructed under f) is a capture / copy of"""
+    if depth > 6:
+        return None
+    if host is f:
+        return _through(f, l)
+    idx = _upvar_index(host, l)
+    if idx is None or host.id not in closures:
+        return None
+    h2, ops = closures[host.id]
+    if idx >= len(ops) or op_local(ops[idx]) is None:
+        return None
+    return _local_in_root(closures, f, h2, op_local(ops[idx]), depth + 1)
+
+
+def _payload_reads(cf, k, vty):
+    """(block, local) of the statements that read a payload position (>= k, an Arc) of a cached tuple"""
+    out = []
+    for bb, b in enumerate(cf.blocks):
+        for st in b["s"]:
+            if st[0] != "=" or st[2][0] not in ("ref", "use"):
+                continue
+            pp = st[2][2] if st[2][0] == "ref" else op_place(st[2][1])
+            if pp is None:
+                continue
+            for e in place_projs(pp):
+                if isinstance(e, list) and e[0] == "f" and e[3] == "tuple" and e[1] >= k and "Arc" in e[4]:
+                    out.append((bb, place_local(st[1])))
+    return out
+
+
+def _uses_guarded(crate, cf, l, true_t, then_closures, dom, depth=0, seen=None):
+    """every use of local l in closure cf is behind the test: in a block dominated by `true_t`, an operand of a closure
+    handed to `bool::then(test)`, or a plain alias whose uses are"""
+    seen = seen if seen is not None else set()
+    if l in seen or depth > 8:
+        return True
+    seen.add(l)
+    for bb, b in enumerate(cf.blocks):
+        in_true = true_t is not None and true_t in dom.get(bb, set())
+        for st in b["s"]:
+            if st[0] != "=":
+                continue
+            rv = st[2]
+            srcs = []
+            if rv[0] == "use":
+                srcs = [op_place(rv[1])]
+            elif rv[0] == "ref":
+                srcs = [rv[2]]
+            elif rv[0] == "agg":
+                srcs = [op_place(o) for o in rv[2]]
+            elif rv[0] in ("bin",):
+                srcs = [op_place(rv[2]), op_place(rv[3])]
+            elif rv[0] == "cast":
+                srcs = [op_place(rv[2])]
+            if not any(p is not None and place_local(p) == l for p in srcs):
+                continue
+            if in_true:
+                continue
+            if rv[0] == "agg" and rv[1][0] == "closure" and rv[1][1] in then_closures:
+                continue
+            if rv[0] in ("use", "ref") and all(x == "*" for x in place_projs(srcs[0])):
+                if _uses_guarded(crate, cf, place_local(st[1]), true_t, then_closures, dom, depth + 1, seen):
+                    continue
+            return False
+        t = b["t"]
+        if t[0] == "call" and any(op_local(a2) == l for a2 in t[1]["args"]) and not in_true:
+            return False
+    return True
+
+
+def closure_guarded_hits(crate, f, k, stored, vty):
+    """closures under f that read the cached payload only behind an equality test -- inside the closure -- of every
+    stamp 0..k-1 of the cached tuple against the value f stores at that position (captured by the closure):
+    `if *h == hash { .. payload .. }` in the closure, or `(*h == hash).then(|| payload)`.
+    Returns (guarded closure ids, unguarded closure ids)."""
+    closures = _closures_in(crate, f)
+    guarded, unguarded = set(), set()
+    for cid in closures:
+        cf = crate.fns[cid]
+        reads = _payload_reads(cf, k, vty)
+        if not reads:
+            continue
+        dom = cf.dominators()
+        ok_all = True
+        for i in range(k):
+            if stored[i] is None:
+                ok_all = False
+                break
+            want = _through(f, stored[i])
+            good = False
+            for bb, b in enumerate(cf.blocks):
+                for st in b["s"]:
+                    if not (st[0] == "=" and st[2][0] == "bin" and st[2][1] == "Eq"):
+                        continue
+                    a, c = op_local(st[2][2]), op_local(st[2][3])
+                    if a is None or c is None:
+                        continue
+                    for x, y in ((a, c), (c, a)):
+                        if _tuple_field_of(cf, x) != i or _local_in_root(closures, f, cf, y) != want:
+                            continue
+                        e = place_local(st[1])
+                        sw = _switch_of(cf, e)
+                        true_t = sw[1] if sw and sw[1] != sw[2] else None
+                        then_closures = set()
+                        for b2, c2 in cf.calls():
+                            if re.search(r"bool>::then$", c2.get("res") or "") and c2["args"] \
+                                    and _through(cf, op_local(c2["args"][0]) or -1) == _through(cf, e):
+                                then_closures |= {x2[0] for x2 in c2.get("clos", [])}
+                        if all(_uses_guarded(crate, cf, l, true_t, then_closures, dom) for _rb, l in reads):
+                            good = True
+            if not good:
+                ok_all = False
+                break
+        (guarded if ok_all else unguarded).add(cid)
+    return guarded, unguarded
+
+
 def fill_functions(db):
     """cache -> function that both looks the cache up and stores into it"""
     out = {}
@@ -149,10 +317,12 @@ def r3d_hit(ctx):
                     use_bbs.add(b2)
         # payload reads inside closures (e.g. `.map(|c| Arc::clone(&c.value().1))`): used at the call that runs the closure
         vty = db.maps[m][1]
+        cl_guarded, cl_unguarded = closure_guarded_hits(ctx.bin, f, k, stored, vty)
+        under_f = set(_closures_in(ctx.bin, f))
         for bb2, c2 in f.calls():
             for cid, loc in c2.get("clos", []):
                 cf = ctx.bin.fns.get(cid)
-                if cf is None or cf.root != f.id:
+                if cf is None or (cf.root != f.id and cid not in under_f) or cid in cl_guarded:
                     continue
                 for b3 in cf.blocks:
                     for st in b3["s"]:
@@ -164,12 +334,18 @@ def r3d_hit(ctx):
                         for e in place_projs(pp):
                             if isinstance(e, list) and e[0] == "f" and e[3] == "tuple" and e[1] >= k and "Arc" in e[4] and e[4] in vty:
                                 use_bbs.add(bb2)
-        if not use_bbs:
+        if cl_unguarded:
+            r.violate(key0 + "|stamp0", "cache `%s`: closure(s) %s read the cached payload without an equality test of every stamp" % (m, sorted(cl_unguarded)))
+            continue
+        if not use_bbs and not cl_guarded:
             r.violate(key0 + "|payload-use", "cannot find where the cached payload of `%s` is used in %s" % (m, fid))
             continue
         dom = f.dominators()
         for i in range(k):
             key = "%s|stamp%d" % (key0, i)
+            if not use_bbs and cl_guarded:
+                r.ok(sample={"cache": m, "stamp": i, "fill": fid, "idiom": "equality test inside the closure that reads the payload"})
+                continue
             if i not in eqs:
                 r.violate(key, "cache `%s`: stamp #%d stored by %s is not compared on the hit path" % (m, i, fid))
                 continue
